@@ -350,12 +350,25 @@ def r11_7(ctx) -> None:
               construct="use_key_ops_registry")
     # in_choices semantic
     ic = eng.prog.func("registry:in_choices")
-    inner = ic.nested.get("_is_one_of")
-    ok = inner is not None
-    if ok:
-        cfg = cfg_of(inner)
-        tests = [norm(t.ast) for t in cfg.nodes if t.kind == "test"]
-        ok = any("not in choices" in x or "in choices" in x for x in tests) and len(cfg.raises()) >= 1
+    # folded (S7) on a small domain, whatever the spelling of the closure: a value (or every member of a list) inside the choices passes, anything else raises
+    from ..fold import FoldRaise
+    ok = True
+    try:
+        clo = F.call(FuncVal(ic, None, None), [["sig", "enc"]], {})
+        for val, want_raise in (("sig", False), ("x", True), (["sig"], False), (["sig", "x"], True), ([], False), (["x"], True)):
+            try:
+                r_ = F.call(clo, [val], {})
+                if is_unknown(r_):
+                    raise AnalysisError("in_choices did not fold")
+                raised = False
+            except FoldRaise:
+                raised = True
+            if raised != want_raise:
+                ok = False
+    except AnalysisError:
+        raise
+    except Exception as e:  # the folder could not interpret the closure
+        raise AnalysisError(f"in_choices did not fold: {type(e).__name__}")
     ctx.check(ok, "R11.7", ic, ic.node, "in_choices", "in_choices does not refuse values outside the choices", "raise ValueError unless value (or every list member) in choices", construct="in_choices")
     # kty dispatch
     jr = eng.prog.cls("_keys:JWKRegistry")
